@@ -7,6 +7,7 @@ import (
 	"encoding/json"
 	"errors"
 	"fmt"
+	"math"
 	"net/http"
 	"net/url"
 	"strings"
@@ -253,8 +254,17 @@ func c04(env *core.Env, kind string, faulty bool) {
 	}
 	r.repo = repoNames[c.Int("repo", len(repoNames))]
 	r.hint = []int{0, -1, 1, 100, 8191, 8192, 8193, 20000}[c.Int("hint", 8)]
+	hugeHint := !r.direct && c.Bool("hint.huge", 1, 12)
 	// effective chunk size
 	eff := r.hint
+	if hugeHint {
+		// "larger than the content" taken to the limit: nothing is sent before Close or
+		// Commit. (Only values for which a mistaken allocation of that size is refused
+		// by the runtime at once; one the machine would try to satisfy would take the
+		// checker down with it.)
+		r.hint = []int{math.MaxInt, math.MaxInt / 2}[c.Int("hint.huge.which", 2)]
+		eff = 64 * 1024
+	}
 	if !r.direct {
 		if eff <= 0 {
 			eff = 64 * 1024
